@@ -226,7 +226,15 @@ func mutateDoc(d []byte) []byte {
 			}
 		}
 		return m
-	case 2: // add an unknown member / duplicate a member
+	case 2: // add an unknown member / duplicate a member / a member whose key is a known key followed by NUL escapes
+		if rndn(3) == 0 {
+			if locs := keyRE.FindAllIndex(m, -1); len(locs) > 0 {
+				l := locs[rndn(len(locs))]
+				// "key": -> "key\u0000":  (an unknown key that differs from a field name only by trailing zero bytes)
+				ins := pick([]string{`\u0000`, `\u0000\u0000`, ` `})
+				return append(append(append([]byte(nil), m[:l[1]-2]...), ins...), m[l[1]-2:]...)
+			}
+		}
 		if i := bytes.IndexByte(m, '{'); i >= 0 {
 			ins := pick([]string{`"zzz":1,`, `"A":null,`, `"a":{"b":[1,2,{"c":null}]},`, `"X":"s",`, `"x":1,`})
 			return append(append(append([]byte(nil), m[:i+1]...), ins...), bytes.TrimPrefix(m[i+1:], []byte(","))...)
@@ -399,3 +407,5 @@ func nullifyEach(d []byte, n int) [][]byte {
 	}
 	return out
 }
+
+var keyRE = regexp.MustCompile(`"[^"\\]*":`)
